@@ -185,3 +185,9 @@ func sFromBinWords(w []big.Word) sInt {
 	return r
 }
 func sFromBytesBE(b []byte) sInt { return new(big.Int).SetBytes(b) }
+
+// vWitness asks whether c can hold here (vacuity / separation witness); native: no-op.
+func vWitness(id string, c bool) {}
+
+// vKnown registers the input predicate of a known finding (known_findings.json).
+func vKnown(id string, c bool) {}
